@@ -18,17 +18,66 @@ func callFactNamed(f Fact, name string, positive bool) bool {
 	return o != nil && o.Name() == name
 }
 
+// locateInRegion finds the first instruction satisfying pred in fn, or in a same-package function fn calls
+// directly (one level).  via is the call in fn leading to the helper, nil when found in fn itself.
+func locateInRegion(fn *ssa.Function, pred func(ssa.Instruction) bool) (at ssa.Instruction, via ssa.CallInstruction) {
+	eachInstr(fn, false, func(in ssa.Instruction) {
+		if at == nil && pred(in) {
+			at = in
+		}
+	})
+	if at != nil {
+		return at, nil
+	}
+	eachInstr(fn, false, func(in ssa.Instruction) {
+		c, ok := in.(ssa.CallInstruction)
+		if !ok || at != nil {
+			return
+		}
+		g := staticCallee(c)
+		if g == nil || len(g.Blocks) == 0 || pkgOf(g) != pkgOf(fn) || g == fn {
+			return
+		}
+		eachInstr(g, false, func(in2 ssa.Instruction) {
+			if at == nil && pred(in2) {
+				at, via = in2, c
+			}
+		})
+	})
+	return at, via
+}
+
+// atCaller maps a value of the helper back to the caller's argument when it is (derived from) a parameter.
+func atCaller(v ssa.Value, via ssa.CallInstruction) ssa.Value {
+	if via == nil {
+		return v
+	}
+	g := staticCallee(via)
+	var out ssa.Value
+	derivesFrom(v, func(x ssa.Value) bool {
+		if p, ok := x.(*ssa.Parameter); ok && out == nil {
+			for i, q := range g.Params {
+				if q == p && i < len(via.Common().Args) {
+					out = via.Common().Args[i]
+				}
+			}
+		}
+		return false
+	})
+	if out != nil {
+		return out
+	}
+	return v
+}
+
 func ruleQueryCacheV1(e *Engine, r *Reporter) {
 	r.Rule("querycache-v1-guards", "CachedCheckResolver.ResolveCheck stores a response only when the delegate returned no error and the response is not cycle-dependent, and serves a cached response only when it is newer than the request's last invalidation time", 3)
 	fn := e.Func("internal/graph", "CachedCheckResolver.ResolveCheck")
-	var set, get, delegate ssa.CallInstruction
+	var get, delegate ssa.CallInstruction
 	eachInstr(fn, false, func(in ssa.Instruction) {
 		c, ok := in.(ssa.CallInstruction)
 		if !ok {
 			return
-		}
-		if isCacheSet(c) {
-			set = c
 		}
 		if isInMemoryCacheGet(c) {
 			get = c
@@ -37,17 +86,36 @@ func ruleQueryCacheV1(e *Engine, r *Reporter) {
 			delegate = c
 		}
 	})
-	if set == nil || get == nil || delegate == nil {
+	setAt, via := locateInRegion(fn, func(in ssa.Instruction) bool {
+		c, ok := in.(ssa.CallInstruction)
+		return ok && isCacheSet(c)
+	})
+	if setAt == nil || get == nil || delegate == nil {
 		blind("querycache-v1-guards: cache.Set / cache.Get / delegate call not found in %s", fname(fn))
 	}
-	g1, _ := mustPass(fn, set, cutSpec{edge: func(f Fact) bool { return callFactNamed(f, "GetCycleDetected", false) }})
+	set := setAt.(ssa.CallInstruction)
+	cyc := cutSpec{edge: func(f Fact) bool { return callFactNamed(f, "GetCycleDetected", false) }}
+	g1, _ := mustPass(set.Parent(), set, cyc)
+	if !g1 && via != nil {
+		g1, _ = mustPass(fn, via, cyc)
+	}
 	r.Check(g1, fname(fn)+" | Set behind !CycleDetected", e.instrPos(set), "cycle-dependent responses are not stored", "a response whose value depends on the dispatch path (cycle cut) can be stored under the path-independent sub-problem key and later served to a request that reaches the sub-problem by another path")
-	g2, _ := mustPass(fn, set, cutSpec{edge: func(f Fact) bool {
+	var anchor ssa.Instruction = set
+	if via != nil {
+		anchor = via
+	}
+	g2, _ := mustPass(fn, anchor, cutSpec{edge: func(f Fact) bool {
 		return f.Kind == "nil" && f.Positive && derivesFrom(f.X, func(v ssa.Value) bool { return v == delegate.(ssa.Value) })
 	}})
 	r.Check(g2, fname(fn)+" | Set behind err==nil", e.instrPos(set), "only successful resolutions are stored", "a failed resolution can be stored in the query cache")
 	// the stored value derives from the delegate's response for this request
 	stored := describe_(set.Common().Args[1])
+	if via != nil {
+		// the entry is built in the helper from a parameter: what the caller passes for it
+		for _, a := range via.Common().Args {
+			stored += " <- " + describe_(a)
+		}
+	}
 	r.Check(strings.Contains(stored, "ResolveCheck("), fname(fn)+" | stored value is the delegate's response", e.instrPos(set), "stores a clone of the delegate response", "the stored entry does not derive from the delegate's response: "+stored)
 	// serving: every success return whose value derives from the cache lookup is behind LastModified.After(...)
 	n := 0
